@@ -9,6 +9,7 @@ import PoetryVerif.Drv.VC
 import PoetryVerif.Drv.Generic
 import PoetryVerif.Drv.Marker
 import PoetryVerif.Drv.Conc
+import PoetryVerif.Drv.Meta
 import PoetryVerif.Drv.Spec440
 import PoetryVerif.Drv.Build
 import PoetryVerif.Drv.Select
@@ -16,7 +17,7 @@ import PoetryVerif.Drv.Select
 open Poetry Poetry.Proto
 
 def handlers : List (String → List String → Option String) :=
-  [Poetry.Drv.handleVC, Poetry.Drv.handleGeneric, Poetry.Drv.handleMarkerAll, Poetry.Drv.handleConc, Poetry.Drv.handleSpec440, Poetry.Drv.handleSelect]
+  [Poetry.Drv.handleVC, Poetry.Drv.handleGeneric, Poetry.Drv.handleMarkerAll, Poetry.Drv.handleConc, Poetry.Drv.handleMeta, Poetry.Drv.handleSpec440, Poetry.Drv.handleSelect]
 
 def dispatch (op : String) (args : List String) : List (String → List String → Option String) → String
   | [] => "bad-op"
